@@ -532,7 +532,7 @@ func c08HiddenStateProbe(s *c08Server, reg c14Registry) string {
 }
 
 func runC08(run *common.Run) {
-	run.Rule = "case = one crash image of the on-disk storage directory of a child emulator process driven by a generated admin+data program (CreateTable with GC rules, MutateRow, DropRowRange prefix/all, ModifyColumnFamilies create/update/drop and multi-modification requests, DeleteTable, re-create): (boundary) the process is frozen with SIGSTOP between two requests and the directory copied; (point) the process freezes itself at an instrumented point inside SetTableMeta / Create / Clear / the row-by-row purge of a dropped family while a request is in flight, the directory is copied and the process killed; (cycle) after such a kill the live directory is restarted and the program continues, up to 5 times; (clean) clean Server.Close stop; (real) the real cbtemulator -dir binary killed with SIGKILL between requests and restarted; (syskill) the child runs under strace and is killed at its N-th unlinkat / rename / mkdir system call, N = 1, 2, ..., over one program in which every fourth request clears a table, and at its N-th write / pwrite64 system call over a program that stores 33-100 KiB values (journal records spanning several write calls), then restarted. (dropgrid) the complete grid {1, 2, 3 families} x {family dropped} x {every crash point of a family drop incl. the 1st-3rd purged row}, and the same points for a request that drops and re-creates one family (known finding KF03 is recognised by its exact state - old definition, old cells gone - and only that state is tolerated); (adminrace) a ModifyColumnFamilies request is parked inside its metadata write while DeleteTable (and a re-creation) is acknowledged, then released; running process and a restart must agree with a serial order. Each image is verified by starting a fresh emulator process on a private copy: it must come up, and ListTables/GetTable/full scans/NotFound probes must equal the acknowledged model, the in-flight request being wholly applied or wholly absent; then, on that throw-away copy, every pool family a table lacks is created and nothing may surface in it (remains of dropped families that are merely not displayed), and a forced garbage-collection pass in the restarted process must remove exactly what the persisted rules condemn. Non-trivial = image taken when the model held at least one table with rows and either a request was in flight or an earlier request had removed something (rows, family, table); distinct by image."
+	run.Rule = "case = one crash image of the on-disk storage directory of a child emulator process driven by a generated admin+data program (CreateTable with GC rules, MutateRow, DropRowRange prefix/all, ModifyColumnFamilies create/update/drop and multi-modification requests, DeleteTable, re-create): (boundary) the process is frozen with SIGSTOP between two requests and the directory copied; (point) the process freezes itself at an instrumented point inside SetTableMeta / Create / Clear / the row-by-row purge of a dropped family while a request is in flight, the directory is copied and the process killed; (cycle) after such a kill the live directory is restarted and the program continues, up to 5 times; (clean) clean Server.Close stop; (real) the real cbtemulator -dir binary killed with SIGKILL between requests and restarted; (syskill) the child runs under strace and is killed at its N-th unlinkat / rename / mkdir system call, N = 1, 2, ..., over one program in which every fourth request clears a table, and at its N-th write / pwrite64 system call over a program that stores 33-100 KiB values (journal records spanning several write calls) and over a directed program of small rows with prefix drops of 8 and 4 rows and a delete-all, then restarted; (bigclear) tables of 5000 / 9000 rows emptied by delete-all, frozen at the clear's instrumented points. One mutation in eight of the generated programs is deliberately invalid (must be rejected before and after every restart) and one request in twelve addresses a 245-byte table id (creation may be refused; an acknowledged table must survive restarts). (dropgrid) the complete grid {1, 2, 3 families} x {family dropped} x {every crash point of a family drop incl. the 1st-3rd purged row}, and the same points for a request that drops and re-creates one family (known finding KF03 is recognised by its exact state - old definition, old cells gone - and only that state is tolerated); (adminrace) a ModifyColumnFamilies request is parked inside its metadata write while DeleteTable (and a re-creation) is acknowledged, then released; running process and a restart must agree with a serial order. Each image is verified by starting a fresh emulator process on a private copy: it must come up, and ListTables/GetTable/full scans/NotFound probes must equal the acknowledged model, the in-flight request being wholly applied or wholly absent; then, on that throw-away copy, every pool family a table lacks is created and nothing may surface in it (remains of dropped families that are merely not displayed), and a forced garbage-collection pass in the restarted process must remove exactly what the persisted rules condemn. Non-trivial = image taken when the model held at least one table with rows and either a request was in flight or an earlier request had removed something (rows, family, table); distinct by image."
 	run.Assumptions = []string{"process death only (SIGSTOP image = what kill -9 leaves: completed syscalls persist); power loss / unsynced page cache is out of scope", "crash points = request boundaries + the instrumented points; kills inside leveldb's own write path are not enumerated"}
 	nprog := run.N(12, 300)
 	scratch, err := os.MkdirTemp("", "verif-c08-")
